@@ -729,7 +729,7 @@ def run(tier, seed, replay=None):
             for kind in KINDS:
                 add_job(kind, f, orders(ats, ats[fi % len(ats)]), "shared-atom")
         if thorough:
-            n_big = int(os.environ.get("VERIF_C07_BIG", "600"))
+            n_big = int(os.environ.get("VERIF_C07_BIG", "1000"))
             for fi in range(n_big):
                 k = rng.choice((5, 5, 6))
                 f = rand_formula_leaves(rng, k)
